@@ -20,7 +20,7 @@ META = {
     'require': {'model': 3000, 'cache-transparent': 6000, 'cache-audit': 6000, 'all-breakpoints': 300, 'global-rmse': 600,
                 'mip': 300, 'nontrivial': 1500},
     'scale': {'quick': 1, 'thorough': 45},
-    'quick_cases': 900, 'thorough_cases': 48000,
+    'quick_cases': 1800, 'thorough_cases': 48000,
     'assumptions': ['relative metrics (smape, rpd, rmspe) are compared numerically only on curves with min y >= 1e-3 max y '
                     '(they are ill-conditioned at y = 0); structural clauses are asserted everywhere',
                     'a cache shared across metrics or curves is outside the property'],
